@@ -670,9 +670,11 @@ func (vc *VC) callFunc(fr *Frame, st *State, x *ssa.Call, callee *ssa.Function, 
 		nm := fnDisplayName(callee)
 		k := callOrdinal(fr.fn, x, nm)
 		keys := []string{fmt.Sprintf("%s#%d", nm, k), fmt.Sprintf("%s#%d", nm[strings.LastIndex(nm, ".")+1:], k)}
+		fr.cutArgs = args
 		vc.cutPoints(fr, st, keys, "")
 		r := vc.callFunc2(fr, st, x, callee, args, binds)
 		vc.cutPoints(fr, st, keys, "after ")
+		fr.cutArgs = nil
 		return r
 	}
 	return vc.callFunc2(fr, st, x, callee, args, binds)
@@ -685,6 +687,10 @@ func (vc *VC) cutPoints(fr *Frame, st *State, keys []string, prefix string) {
 			env := vc.loopEnvAt(fr, st)
 			for n, v := range fr.specVars {
 				env.vars[n] = v
+			}
+			// $arg<i>: the actual arguments of the call the cut point is attached to
+			for i, a := range fr.cutArgs {
+				env.vars[fmt.Sprintf("$arg%d", i)] = a
 			}
 			g, err := env.evalBool(c.E)
 			if err != nil {
